@@ -274,15 +274,15 @@ func run(c *eng.Ctx) error {
 	}
 	nA := nA1 + nA2
 	nB := nBcfg * pow(len(ch3), LB)
-	nC := c.N(250, 2000)
+	nC := c.N(250, 1500)
 	nM := c.N(15, 150)
 	nH := c.N(2, 10)
 	nSync, nSingle := c.N(2, 4), c.N(1, 2)
 	if syncOK {
-		nSync = c.N(150, 1500)
+		nSync = c.N(150, 800)
 	}
 	if singleOK {
-		nSingle = c.N(100, 1000)
+		nSingle = c.N(100, 500)
 	}
 	fmt.Printf("NOTE c23: re-appearance probe: sync-path %v, single-host-path %v -> %d+%d dedicated re-appearance traces\n",
 		okStr(syncOK), okStr(singleOK), nSync, nSingle)
